@@ -47,14 +47,91 @@ Definition resolve (o : objs) (r : ref) : outcome uid :=
             end
   end.
 
+(* ---- effect-internal references (material.py: Effect.load, getEffectParameters, Surface.load,
+   Sampler2D.load, Map.load).  Every effect has its OWN scope of sids (a dict: a later newparam with
+   the same sid replaces the earlier one); nothing of another effect is visible.
+     surface  -> image    : collada.images (DaeBrokenRef when missing)
+     sampler  -> surface  : a Surface of this effect's scope (DaeBrokenRef otherwise)
+     texture  -> sampler  : a Sampler2D of this effect's scope; else the first sampler of the scope
+                            whose surface's image carries that id ("exporters suck"); else the
+                            shading property is silently dropped (0 below) - the bump map under
+                            <extra> raises DaeBrokenRef instead (since /repo f9cb138)
+   Not modelled: a texture naming an IMAGE id (the loader then invents a surface and a sampler),
+   effect-local <image> elements, an image id that equals a sid of the scope. *)
+Inductive eparam :=
+  | PSurface (sid : ident) (u : uid) (img : ident)
+  | PSampler (sid : ident) (u : uid) (src : ident)
+  | PValue (sid : ident).
+
+Inductive eobj :=
+  | ESurface (u : uid) (img_id : ident)
+  | ESampler (u : uid) (surf_img_id : ident)
+  | EValue.
+Definition escope := list (ident * eobj).
+Definition eget := @dget ident eobj N.eqb.
+Definition eset := @dset ident eobj N.eqb.
+
+(* getEffectParameters: bindings of the surfaces and samplers in order, and the final scope *)
+Fixpoint load_params (o : objs) (ps : list eparam) (sc : escope) (acc : list uid) : outcome (escope * list uid) :=
+  match ps with
+  | [] => Ok (sc, acc)
+  | PSurface sid u img :: r =>
+      match lookup o LImages img with
+      | None => Raise DaeBrokenRef
+      | Some iu => load_params o r (eset sc sid (ESurface u img)) (acc ++ [iu])
+      end
+  | PSampler sid u src :: r =>
+      match eget sc src with
+      | Some (ESurface su simg) => load_params o r (eset sc sid (ESampler u simg)) (acc ++ [su])
+      | _ => Raise DaeBrokenRef
+      end
+  | PValue sid :: r => load_params o r (eset sc sid EValue) acc
+  end.
+
+(* Map.load: the sampler a <texture texture=name> is bound to *)
+Definition find_sampler (sc : escope) (name : ident) : option uid :=
+  match eget sc name with
+  | Some (ESampler u _) => Some u
+  | _ => match List.find (fun kv => match snd kv with ESampler _ i => N.eqb i name | _ => false end) sc with
+         | Some (_, ESampler u _) => Some u
+         | _ => None
+         end
+  end.
+
+Record effect_body := FX { fx_params : list eparam; fx_texs : list ident; fx_bump : option ident }.
+
+Definition load_effect_body (o : objs) (b : effect_body) : outcome (list uid) :=
+  match load_params o (fx_params b) [] [] with
+  | Raise e => Raise e
+  | Ok (sc, binds) =>
+      let texs := map (fun name => match find_sampler sc name with Some u => u | None => 0%N end) (fx_texs b) in
+      match fx_bump b with
+      | None => Ok (binds ++ texs)
+      | Some name => match find_sampler sc name with
+                     | Some u => Ok (binds ++ texs ++ [u])
+                     | None => Raise DaeBrokenRef
+                     end
+      end
+  end.
+
 (* ---- objects of the plain libraries (images ... cameras) *)
-Record item := Item { it_uid : uid; it_id : ident; it_refs : list ref }.
+Record item := Item { it_uid : uid; it_id : ident; it_refs : list ref; it_fx : option effect_body }.
 Definition lval := (uid * ident * list uid)%type.      (* loaded object and what it is bound to *)
 
 Definition load_item (o : objs) (it : item) : outcome lval :=
   match omapM (resolve o) (it_refs it) with
   | Ok us => Ok (it_uid it, it_id it, us)
   | Raise e => Raise e
+  end.
+
+(* an effect is loaded by Effect.load, everything else through its references *)
+Definition load_any (o : objs) (it : item) : outcome lval :=
+  match it_fx it with
+  | None => load_item o it
+  | Some b => match load_effect_body o b with
+              | Ok us => Ok (it_uid it, it_id it, us)
+              | Raise e => Raise e
+              end
   end.
 
 (* ---- nodes *)
@@ -282,7 +359,7 @@ Definition step (mk : mask) (d : doc) (k : lib) (s : state) : dres :=
           end
       end
   | _ =>
-      let '(vals, e, ab) := load_lib (load_item (st_objs s)) mk (items_of d k) [] (st_errs s) in
+      let '(vals, e, ab) := load_lib (load_any (st_objs s)) mk (items_of d k) [] (st_errs s) in
       let s' := State (st_objs s ++ map (fun v => (k, obj_of_lval v)) vals)
                       (st_items s ++ map (fun v => (k, v)) vals)
                       (st_nodes s) (st_scenes s) (st_default s) e in
